@@ -40,14 +40,15 @@ type c11state struct {
 
 	endedRounds map[hrKey]string
 	// did gossip receive the justification for hrKey before anything for a later round?
-	justified        map[hrKey]bool
-	laterSeen        map[hrKey]bool
-	updatesJudged    int
-	viewsJudged      int
-	jumpAheadsJudged int
-	jumpAheadsLive   int
-	smLive           bool
-	quiescences      int
+	justified           map[hrKey]bool
+	laterSeen           map[hrKey]bool
+	updatesJudged       int
+	viewsJudged         int
+	jumpAheadsJudged    int
+	sameVersionCompared int
+	jumpAheadsLive      int
+	smLive              bool
+	quiescences         int
 }
 
 func newC11() *c11state {
